@@ -5,6 +5,7 @@ import Gomacro.Drv.An
 import Gomacro.Drv.C09
 import Gomacro.Drv.C16
 import Gomacro.Drv.C01
+import Gomacro.Drv.Sem
 /-! JSON-lines driver: one request object per line in, one reply per line out.
 Unknown ops are `bad-op`, never defaulted.  Core-only imports (links as an executable). -/
 open Lean Gomacro.Drv
@@ -21,7 +22,8 @@ def handlers : List (String × Handler) := [
   ("c16.classify", c16Classify),
   ("c16.one", c16One),
   ("c16.query", c16Query),
-  ("c01.idents", c01Idents)
+  ("c01.idents", c01Idents),
+  ("sem.encode", semEncode)
 ]
 
 def handleLine (line : String) : String :=
